@@ -33,9 +33,97 @@ def outcome(f):
         return {"crash": type(e).__name__, "msg": str(e)[:120]}
 
 
+# ---- canonical form of a test-backend query: operands of and / or sorted, same operators flattened.
+# The merge of items with the same key moves the merged item to the end of its mapping; the property
+# is indifferent to the order of operands.
+def _words(q):
+    out, cur, i, n = [], "", 0, len(q)
+    def flush():
+        nonlocal cur
+        if cur: out.append(cur); cur = ""
+    while i < n:
+        c = q[i]
+        if c == '"':
+            j = i + 1
+            while j < n and q[j] != '"':
+                j += 2 if q[j] == "\\" and j + 1 < n else 1
+            cur += q[i:j + 1]; i = j + 1
+        elif c == "/" and cur.endswith("="):
+            j = i + 1
+            while j < n and q[j] != "/":
+                j += 2 if q[j] == "\\" and j + 1 < n else 1
+            cur += q[i:j + 1]; i = j + 1
+        elif c == "(" and cur:                     # function-like: fieldref(x)
+            j = q.find(")", i)
+            j = n - 1 if j < 0 else j
+            cur += q[i:j + 1]; i = j + 1
+        elif c in "()":
+            flush(); out.append(c); i += 1
+        elif c == " ":
+            flush(); i += 1
+        else:
+            cur += c; i += 1
+    flush()
+    return out
+
+
+def _canon_line(q):
+    toks = _words(q)
+    pos = 0
+    def peek(): return toks[pos] if pos < len(toks) else None
+    def parse_or():
+        nonlocal pos
+        xs = [parse_and()]
+        while peek() == "or":
+            pos += 1; xs.append(parse_and())
+        return ("or", xs) if len(xs) > 1 else xs[0]
+    def parse_and():
+        nonlocal pos
+        xs = [parse_not()]
+        while peek() == "and":
+            pos += 1; xs.append(parse_not())
+        return ("and", xs) if len(xs) > 1 else xs[0]
+    def parse_not():
+        nonlocal pos
+        if peek() == "not":
+            pos += 1
+            return ("not", [parse_not()])
+        if peek() == "(":
+            pos += 1
+            x = parse_or()
+            if peek() == ")": pos += 1
+            return x
+        ws = []
+        while peek() is not None and peek() not in ("and", "or", "not", "(", ")"):
+            ws.append(toks[pos]); pos += 1
+        if not ws and peek() is not None:        # stray token: keep it so that nothing is dropped
+            ws.append(toks[pos]); pos += 1
+        return ("atom", " ".join(ws))
+    def flat(t):
+        if t[0] in ("and", "or"):
+            xs = []
+            for x in map(flat, t[1]):
+                xs += x[1] if x[0] == t[0] else [x]
+            return (t[0], xs)
+        if t[0] == "not": return ("not", [flat(t[1][0])])
+        return t
+    def show(t):
+        if t[0] == "atom": return t[1]
+        if t[0] == "not": return "not " + (show(t[1][0]) if t[1][0][0] in ("atom", "not") else "(" + show(t[1][0]) + ")")
+        parts = sorted(show(x) if x[0] in ("atom", "not") else "(" + show(x) + ")" for x in t[1])
+        return (" " + t[0] + " ").join(parts)
+    t = parse_or()
+    rest = " ".join(toks[pos:])
+    return show(flat(t)) + ((" ## " + rest) if rest else "")
+
+
+def canon_query(q):
+    return "\n".join(l if l.startswith("|") else _canon_line(l) for l in q.split("\n"))
+
+
 def query_of(f):
     try:
-        return "\n".join(str(x) for x in f())
+        return canon_query("\n".join(str(x) for x in f()))
     except Exception as e:  # noqa
         return "ERR:" + type(e).__name__
 
